@@ -3,5 +3,5 @@ ID = "C04"
 FUNCTIONS = CSV_FUNCS + [TF + f for f in ("close", "__exit__", "__enter__")]
 ASSUMED = ["tinyflux.storages.Storage.close"]
 STANDIN = "standins/csvio.py"
-TRUSTED = IO_TRUSTED
+TRUSTED = IO_TRUSTED + ["assumed abstract contract of Storage.close (contents and temporary contents unchanged; may raise): its CSV instance is CSVStorage.close, proved in this cone", "NOT under contract (bounded stand-in only): CSVStorage.__init__, _check_for_existing_data, create_file"]
 ASSUMPTIONS = ["A-single: one process, one TinyFlux object per file", "A-buf: one csv row fits the text/binary buffers, so bytes reach the disk only at flush/seek/close"]
